@@ -1,8 +1,21 @@
-"""C10 — bounded run-time contract check (see checks/C10_bounded.py for the contract and scope); proof kernel: see DESIGN §5 C10."""
-from vlib.thin import run_bounded_only
+"""C10 — Result objects deliver exactly the underlying rows: BufferedRowCursorFetchStrategy under proof (every row once, in
+order, for any row count and any sequence of fetch calls), the Result API as the bounded complement."""
+import importlib
+import contracts.cursor_fetch  # noqa: F401
+from pyvc.contract import FUNCS
+from vlib.proof import run_proofs
 
-LEVEL = "exploration"
+LEVEL = "proof"
+KEYS = [k for k, c in FUNCS.items() if "C10" in c.props and c.proof and not c.abstract]
 
 
 def run(run, tier, seed, args):
-    run_bounded_only(run, "C10", tier, seed)
+    run_proofs(run, KEYS, tier, update_baseline=args.update_baseline, source_root=args.source_root)
+    if not args.source_root:
+        importlib.import_module("checks.C10_bounded").bounded(run, tier, seed)
+    run.assumptions += [
+        "assumed DBAPI cursor contract (PEP 249): fetchmany(n >= 1) returns and removes the next n remaining rows, fetchall() all of them; fetchmany(0) is driver-defined and proved never to be issued",
+        "handle_exception never returns; CursorResult._soft_close clears the strategy's row buffer and marks the result closed",
+        "each fetch* contract says: the call returns a prefix of (buffer ++ cursor rows) and leaves exactly the rest — so any sequence of calls returns consecutive segments of the initial rows (each row once, in order)",
+        "Result / ScalarResult / MappingResult / FrozenResult / MergedResult / ChunkedIteratorResult (closures of _result_cy) are in the bounded complement only",
+    ]
